@@ -232,3 +232,20 @@ Definition prim_step (s : pst) (p : prim) : pst :=
 Definition prim_run (s : pst) (ps : list prim) : pst := fold_left prim_step ps s.
 Definition pinit : pst := mkPst (empty_tree Z 0) 1 heap0.
 End PRun.
+
+(* the stored state of Model/Check.v (what the two checkers look at), with
+   next / firstbucket READ from the heap *)
+Section Stored.
+Variable V : Type.
+Fixpoint to_ph (h : heap) (t : tree V) {struct t} : Check.pnode :=
+  match t with
+  | Leaf i l => Check.PLeaf i (map fst l) (nx h i)
+  | Node i kids =>
+    Check.PNode i (fb h i)
+      ((fix go (l : list (Z * tree V)) : list (Z * Check.pnode) :=
+          match l with
+          | [] => []
+          | (s, c) :: rest => (s, to_ph h c) :: go rest
+          end) kids)
+  end.
+End Stored.
